@@ -31,6 +31,7 @@ def run(ctx):
     ctx.rule("dh-operands-available", "for every row, role and DH token both operands are available given the prerequisites and the tokens processed so far")
     ctx.rule("build-prereq-guard", "Builder::build returns Prereq(..) exactly under `key absent && pattern needs it`, before any other work")
     ctx.rule("build-resolver-variant", "each resolve_* failure maps to its InitStage variant")
+    ctx.rule("build-key-length", "ValidateKeyLengths rejections compare each supplied key with its own bound (priv_len for private keys; buffer capacity or pub_len for the remote public key)")
     ctx.rule("missing-psk-error", "a psk token with no key configured returns State(MissingPsk), never a default")
     ctx.rule("modifier-handling", "try_from rejects unimplemented modifiers and misplaced psk indices")
     ctx.trust("rustc name resolution / type checking (HIR), snowfacts exporter, /verif/spec/patterns.py transcription")
@@ -109,6 +110,7 @@ def run(ctx):
                        "%s:%s" % (f, lines.get(name, 0)), cfg)
         ctx.floor("prereq-local-static", cnt, 228, cfg)
         check_build(ctx, cfg)
+        check_key_lengths(ctx, cfg)
         check_missing_psk(ctx, cfg)
         check_modifiers(ctx, cfg)
 
@@ -198,6 +200,79 @@ def check_build(ctx, cfg):
         ctx.ob("build-resolver-variant", "%s@%d" % (name, sum(1 for (c2, t3) in res_calls if t3["callee"]["name"] == name and c2 <= cb)), good,
                "%s() == None is reported as Init(%s)" % (name, okv) if good else "%s() == None is reported as %s, expected Init(%s)" % (name, okv, expect.get(name)),
                where(fn, t), cfg)
+
+
+def check_key_lengths(ctx, cfg):
+    """Every Init(ValidateKeyLengths) rejection in Builder::build compares a supplied key with the bound that
+    belongs to that key: private keys (s, fixed e) with Dh::priv_len, the remote public key with the capacity
+    of its buffer or Dh::pub_len. A tighter or mismatched bound rejects keys of the primitive's own size, so a
+    configuration that supplies everything the pattern needs would fail to build."""
+    from ..expr import show
+    F = ctx.facts[cfg]
+    fn = F.one_fn("builder::Builder::<'builder>::build")
+    G = ctx.guards(cfg, fn)
+    seen = {}
+    for (bi, v, st) in ret_err_sites(fn, G.R):
+        if not (v and v[0] == "Init" and v[1] == "ValidateKeyLengths"):
+            continue
+        # a rejection under `a || b` is entered from several edges: judge the facts of each incoming path
+        fsets = [G.at_entry(bi) | G.before_term(bi)]
+        jb = bi
+        for _ in range(6):
+            preds = [p for p in fn.preds(jb) if p in fn.reachable()]
+            if len(preds) != 1 or len(fn.succs(preds[0])) != 1:
+                break
+            jb = preds[0]
+        if len(preds) > 1:
+            fsets += [G.before_term(p) | G.edge_facts.get((p, jb), set()) for p in preds]
+        for f in set().union(*fsets):
+            if f[0] != "cmp":
+                continue
+            op, a, b, truth = f[1], f[2], f[3], f[4]
+            # orient as  len(key) > bound
+            if (op, truth) in (("Gt", True), ("Le", False)):
+                key, bound = a, b
+            elif (op, truth) in (("Lt", True), ("Ge", False)):
+                key, bound = b, a
+            else:
+                continue
+            if key[0] != "len":
+                continue
+            field = next((fl for fl in ("s", "e_fixed", "rs") if mentions_field(key[1], fl) or mentions_field(_through_copies(fn, G.R, key[1]), fl)), None)
+            if field is None:
+                continue
+            if bound[0] == "call" and (bound[1] or "").endswith("::Dh::priv_len"):
+                cls = "priv_len"
+            elif bound[0] == "call" and (bound[1] or "").endswith("::Dh::pub_len"):
+                cls = "pub_len"
+            elif bound[0] == "len" and bound[1][0] in ("ref", "place") and all(r[0] == "loc" for r, p in bound[1][1]):
+                cls = "buffer"
+            elif bound[0] == "const" and bound[1] >= 56:
+                cls = "buffer"
+            else:
+                cls = "other:" + show(bound, fn)
+            ok = cls == "priv_len" if field in ("s", "e_fixed") else cls in ("buffer", "pub_len")
+            k = (field, cls)
+            if k not in seen or not ok:
+                seen[k] = (ok, st, show(key, fn), show(bound, fn))
+    for (field, cls), (ok, st, ks, bs) in sorted(seen.items()):
+        ctx.ob("build-key-length", "%s:%s" % (field, cls), ok,
+               "self.%s is rejected with ValidateKeyLengths only when longer than %s" % (field, bs) if ok
+               else "self.%s is rejected with ValidateKeyLengths when longer than %s: %s" % (field, bs, "a private key is bounded by Dh::priv_len" if field != "rs" else "a remote public key of the primitive's own length (pub_len, which may exceed priv_len) must be accepted"),
+               where(fn, st), cfg)
+    ctx.floor("build-key-length", len(seen), 3, cfg)
+
+
+def _through_copies(fn, R, e):
+    """a value rooted at a local that is a whole copy of a builder field (a helper's parameter after inlining): the
+    expression of that copy"""
+    from ..guards import expr_paths
+    for (root, pr) in expr_paths(e):
+        if root[0] == "loc" and root[1] > fn.argc:
+            ie = R.init_expr(root[1])
+            if ie[0] in ("place", "ref"):
+                return ie
+    return e
 
 
 def converse_prereq(fn, G, crate):
